@@ -33,6 +33,7 @@ type ExprEnv struct {
 	a0   string
 	pkg  *types.Package
 	errs []string
+	assuming bool                    // the formula will be assumed (callee postcondition at a call site), not proved
 	oldVars map[string]tval           // values of loop variables at the loop head (iter clauses)
 	visited func(k string) string     // the visited-set of the enclosing map range at this point
 }
@@ -130,8 +131,9 @@ func (x *ExprEnv) tr(ex ast.Expr) tval {
 			h := e.elemHeap(u.Elem())
 			return tval{t: e.sel(e.view(x.st, h), h, Loc{"(sarr " + b.t + ")", "(+ (soff " + b.t + ") " + i.t + ")"}), typ: u.Elem()}
 		case *types.Map:
-			_, v, _ := e.mapHeaps(u)
-			return tval{t: e.sel(e.view(x.st, v), v, Loc{b.t, i.t}), typ: u.Elem()}
+			d, v, _ := e.mapHeaps(u)
+			in := "(and (not (= " + b.t + " 0)) " + e.sel(e.view(x.st, d), d, Loc{b.t, i.t}) + ")"
+			return tval{t: "(ite " + in + " " + e.sel(e.view(x.st, v), v, Loc{b.t, i.t}) + " " + e.d.zero(u.Elem()) + ")", typ: u.Elem()}
 		case *types.Basic:
 			e.d.decl("strbyte", "(Str Int) Int")
 			return tval{t: "(strbyte " + b.t + " " + i.t + ")", typ: types.Typ[types.Uint8]}
@@ -338,9 +340,23 @@ func (x *ExprEnv) call(n *ast.CallExpr) tval {
 			}
 			o := x.withState(x.old)
 			if x.oldVars != nil {
-				o.vars = x.oldVars
+				// loop variables take their value at the loop head; variables that only exist inside the
+				// body (the current element, ...) keep their current value
+				m := map[string]tval{}
+				for k, v := range x.vars {
+					m[k] = v
+				}
+				for k, v := range x.oldVars {
+					m[k] = v
+				}
+				o.vars = m
 			}
-			return o.tr(n.Args[0])
+			ne := len(x.errs)
+			r := o.tr(n.Args[0])
+			if len(o.errs) > ne {
+				x.errs = append(x.errs, o.errs[ne:]...)
+			}
+			return r
 		case "visited":
 			if x.visited == nil {
 				return x.errf("visited() only inside a map-range loop invariant")
@@ -362,6 +378,11 @@ func (x *ExprEnv) call(n *ast.CallExpr) tval {
 				}
 				if onlyUnknown {
 					x.errs = x.errs[:ne]
+					if x.assuming {
+						// when the clause is only assumed (a callee's postcondition seen from a call site, where the
+						// callee's locals do not exist) it says nothing
+						return tval{t: "true", typ: bt}
+					}
 					b = tval{t: "false", typ: bt}
 				}
 			}
@@ -462,6 +483,14 @@ func (x *ExprEnv) call(n *ast.CallExpr) tval {
 				return tval{t: fmt.Sprintf("(forall ((%s Int)) (=> %s %s))", qn, rng, body.t), typ: bt}
 			}
 			return tval{t: fmt.Sprintf("(exists ((%s Int)) (and %s %s))", qn, rng, body.t), typ: bt}
+		case "string":
+			a := x.tr(n.Args[0])
+			if e.d.sortOf(a.typ) == "Slice" {
+				told, gate := e.heapTokensH(x.st, []string{a.t}, []types.Type{a.typ}, []string{e.elemHeap(a.typ.Underlying().(*types.Slice).Elem())})
+				e.d.decl("bytes2str", "(Slice Int Int) Str")
+				return tval{t: "(bytes2str " + a.t + " " + told + " " + gate + ")", typ: types.Typ[types.String]}
+			}
+			return tval{t: a.t, typ: types.Typ[types.String]}
 		case "int", "uint", "int64", "uint64", "uint32", "int32":
 			a := x.tr(n.Args[0])
 			return tval{t: a.t, typ: types.Universe.Lookup(id.Name).Type()}
@@ -524,7 +553,10 @@ func (x *ExprEnv) call(n *ast.CallExpr) tval {
 				rt := sig.Results().At(0).Type()
 				name := "IM_" + astIfaceKey(b.typ) + "_" + fo.Name() + "_0"
 				if nt, ok := b.typ.(*types.Named); ok && nt.Obj().Pkg() != nil && e.w.mine[nt.Obj().Pkg()] && !e.w.pureIfaceMethod(b.typ, fo) && e.w.readerIfaceMethod(b.typ, fo) {
-					name = fmt.Sprintf("IMv%d_%s_%s_0", x.st.ver, typeKey(b.typ), fo.Name())
+					name = "IMR_" + typeKey(b.typ) + "_" + fo.Name() + "_0"
+					told, gate := e.heapTokens(x.st, args, ats)
+					args = append(args, told, gate)
+					ats = append(ats, types.Typ[types.Int], types.Typ[types.Int])
 				}
 				var sorts []string
 				for _, t := range ats {
@@ -642,11 +674,15 @@ func (x *ExprEnv) funcCall(fn *ssa.Function, recv *tval, argx []ast.Expr) tval {
 	if e.readerUF(fn) {
 		name := e.readerName(fn, x.st) + "_0"
 		var sorts []string
+		var pts []types.Type
 		for _, p := range fn.Params {
 			sorts = append(sorts, e.d.sortOf(p.Type()))
+			pts = append(pts, p.Type())
 		}
+		told, gate := e.heapTokensH(x.st, args, pts, e.readHeaps(fn))
+		sorts = append(sorts, "Int", "Int")
 		e.d.decl(name, "("+strings.Join(sorts, " ")+") "+e.d.sortOf(rt))
-		return tval{t: "(" + name + " " + strings.Join(args, " ") + ")", typ: rt}
+		return tval{t: "(" + name + " " + strings.Join(args, " ") + " " + told + " " + gate + ")", typ: rt}
 	}
 	if e.quant == 0 && e.willInline(fn, 1) && e.spec.contractFor(fn) == nil {
 		saveCur := e.cur
